@@ -25,6 +25,19 @@ CLAIMED = {
    note="Trusted: Lean kernel + standard axioms; the hand-written model tied by this run's correspondence box; harness carriers; g++/CPU.",
    technique="Lean 4 proof of an executable kernel model + symbolic-scalar correspondence with the real templates",
    design="§4 C17"),
+ "C03": dict(
+   text="Machine-checked proof (Lean 4): the model of pairwise einsum/contraction — the index metafunctions (result indices/extents, loop variables, "
+        "operand offsets), the default RecursiveCartesian loop nest, the SIMD stride chosen by is_vectorisable and the dispatch to the gemm-type back "
+        "ends — computes, for EVERY index pattern (also indices repeated within one operand) and all extents, in every result cell the Einstein sum "
+        "over all assignments of the index names that agree on the free indices, each exactly once, with result indices = the non-repeated indices in "
+        "order of first appearance (theorems Fastor.C03.loopnest_correct, loopnest_vectorised_correct, result_type_correct, reroute_gemm_dispatch, "
+        "24 in all). Tied to /repo by running the real einsum<Index<I>,Index<J>> over the symbolic scalar for every labelling of ranks up to (2,2) "
+        "and samples up to (3,3)/(4,3), comparing result extents, values, store order incl. zero fill, read sets, stride and aligned-access count.",
+   note="Trusted: Lean kernel + standard axioms; hand-written model tied by this run's box; harness carriers and the reference Einstein sum. Not modelled: "
+        "Voigt overloads, CONTRACT_OPT variants other than the default (run by value only in the thorough tier), single-tensor einsum and explicit-output "
+        "form (value-tested).",
+   technique="Lean 4 proof of an executable loop-nest + metafunction model; symbolic-scalar correspondence with the real templates",
+   design="§4 C03"),
 }
 
 NOT_YET = {}
